@@ -620,6 +620,12 @@ def run(ctx):
     if not quick:
         small += [a + b + c for a in ALPHA[:40] for b in ALPHA[:40] for c in ALPHA[:40]]
     others += small
+    # two simple selectors inside one negation, with and without something between them
+    for a in ('b', '.x', '#i', '[x]', ':hover', '*', '|b', '*|b'):
+        for sep in (' ', '/**/', ' /**/ ', '\t'):
+            for b in ('c', 'C', '\\63 '):
+                others.append('a:not(%s%s%s)' % (a, sep, b))
+                others.append(':NOT( %s%s%s )>d' % (a, sep, b))
     others = [t for t in dict.fromkeys(others) if t and encodable(t)]
     nrej = 0
     for t in others:
